@@ -25,6 +25,8 @@ def n_runs(tier):
 def gen_job(verif_seed, tier, index):
     job, st = jobgen.base_job(PROP, verif_seed, tier, index, PROFILE)
     g = st.gen
+    if g.random() < 0.08:
+        job["opts"]["bfudge"] = g.choice([0.0, 0.0, 1.7])          # boundary value 0 (atoms on the centre) and > 1
     if "orient" not in job["tape"] and g.random() < 0.7:
         from simkit.core import draw_lane
         from gen import topgen
